@@ -34,6 +34,12 @@ def anchors():
     # files whose effect is visible through checks that do not list them as anchors
     m.setdefault("ligand.py", []).insert(0, "C01")
     m.setdefault("protonate.py", []).insert(0, "C01")
+    for pid in ("C17", "C04", "C01"):
+        if pid not in m.setdefault("atom.py", []):
+            m["atom.py"].append(pid)
+    for pid in ("C02", "C10"):
+        if pid not in m.setdefault("output.py", []):
+            m["output.py"].append(pid)
     for f in ("conformation_container.py", "group.py"):
         for pid in ("C04", "C05", "C16"):
             if pid not in m.setdefault(f, []):
